@@ -52,3 +52,6 @@ func vh_C14_Operation() { vC14Check("operation", new(Operation), new(Operation))
 func vh_C14_Header()    { vC14Check("header", new(Header), new(Header)) }
 func vh_C14_Items()     { vC14Check("items", new(Items), new(Items)) }
 func vh_C14_Swagger()   { vC14Check("swagger", new(Swagger), new(Swagger)) }
+func vh_C14_Paths()     { vC14Check("paths", new(Paths), new(Paths)) }
+func vh_C14_PathItem()  { vC14Check("pathItem", new(PathItem), new(PathItem)) }
+func vh_C14_Responses() { vC14Check("responses", new(Responses), new(Responses)) }
